@@ -163,7 +163,7 @@ func (c12) Gen(tier string, seed int64, emit0 func([]Ev)) {
 			at := 1 + r.Intn(len(calls))
 			calls = append(calls[:at:at], append([]Ev{{"f": "SetPartitionFlag", "b": false}}, calls[at:]...)...)
 		}
-		emit([]Ev{{"op": "build", "cablelabs": i%2 == 0, "calls": calls, "twin": i%3 == 1}})
+		emit([]Ev{{"op": "build", "cablelabs": i%2 == 0, "calls": calls, "twin": i%3 == 1, "probe": i%4 >= 2}})
 	}
 	// time round trip over the whole representable range, nanosecond boundary values
 	nsVals := []int{0, 1, 2, 499999999, 500000000, 999999998, 999999999}
@@ -251,7 +251,17 @@ func (c12) Exec(h []Ev) []Ev {
 				case []interface{}:
 					calls = t
 				}
+				// "probe": the object is asked for all its getters and its encoding between the setter calls (answers not
+				// judged - the object may be half built); what it answers at the end must not depend on having been asked
+				probe, _ := e["probe"].(bool)
 				for _, ci := range calls {
+					if probe {
+						func() {
+							defer func() { _ = recover() }()
+							_ = c12Getters(x)
+							_ = x.Data()
+						}()
+					}
 					c := asMap(ci)
 					v := GBool(c["b"])
 					switch GS(c["f"]) {
@@ -360,7 +370,7 @@ func (c12) Class(e Ev) string {
 		}
 		return fmt.Sprintf("decode/%02x/flags%02x", b[0], b[fi]&0x39)
 	case "build":
-		return fmt.Sprintf("build/cl%v/len%d", GBool(e["cablelabs"]), len(GB(e["bytes"]))/4)
+		return fmt.Sprintf("build/cl%v/len%d/probe%v", GBool(e["cablelabs"]), len(GB(e["bytes"]))/4, GBool(e["probe"]))
 	case "time":
 		s := UW64(e["t_secs"])
 		era := 0
